@@ -42,32 +42,32 @@ theorem runPos_hit {σ : Type} (cb : Callback σ) (c : Cache) : ∀ (L : List Po
 theorem dirOf_cases (d : Int) : dirOf d = 1 ∨ dirOf d = -1 := by
   unfold dirOf; split <;> simp
 
-theorem searchNext_factors (exec : Exec) (c : Cache) (s : SearchSt) (d : Int) (hne : c.nCached ≠ 0)
-    (hp : PgOk (prepare s d).startPgno) (hok : StartOk c (prepare s d).startPgno) :
-    (searchNext exec walkFuel c s d).res =
+theorem searchNext_factors (sh : Shape) (exec : Exec) (c : Cache) (s : SearchSt) (d : Int) (hne : c.nCached ≠ 0)
+    (hp : PgOk (prepare sh s d).startPgno) (hok : StartOk sh c (prepare sh s d).startPgno) :
+    (searchNext sh exec walkFuel c s d).res =
       statusOf (runPos (callbackOf exec d) c
-        (walkPositions c (prepare s d).startPgno (prepare s d).startSubno (dirOf d)) (prepare s d)).1 := by
+        (walkPositions sh c (prepare sh s d).startPgno (prepare sh s d).startSubno (dirOf d)) (prepare sh s d)).1 := by
   unfold searchNext
-  obtain ⟨h1, _⟩ := walk_factors (callbackOf exec d) c (prepare s d) (prepare s d).startPgno (prepare s d).startSubno
+  obtain ⟨h1, _⟩ := walk_factors sh (callbackOf exec d) c (prepare sh s d) (prepare sh s d).startPgno (prepare sh s d).startSubno
     (dirOf d) hne hp (dirOf_cases d)
-  rw [walkRun_eq_runPos _ _ _ _ _ _ hok] at h1
+  rw [walkRun_eq_runPos _ _ _ _ _ _ _ hp hok] at h1
   simp only [h1]
 
-theorem searchNext_st (exec : Exec) (c : Cache) (s : SearchSt) (d : Int) (hne : c.nCached ≠ 0)
-    (hp : PgOk (prepare s d).startPgno) (hok : StartOk c (prepare s d).startPgno) :
-    (searchNext exec walkFuel c s d).st =
+theorem searchNext_st (sh : Shape) (exec : Exec) (c : Cache) (s : SearchSt) (d : Int) (hne : c.nCached ≠ 0)
+    (hp : PgOk (prepare sh s d).startPgno) (hok : StartOk sh c (prepare sh s d).startPgno) :
+    (searchNext sh exec walkFuel c s d).st =
       (let r := runPos (callbackOf exec d) c
-        (walkPositions c (prepare s d).startPgno (prepare s d).startSubno (dirOf d)) (prepare s d)
+        (walkPositions sh c (prepare sh s d).startPgno (prepare sh s d).startSubno (dirOf d)) (prepare sh s d)
        if r.1 = -1 then { r.2 with dir := 0 } else r.2) := by
   unfold searchNext
-  obtain ⟨h1, h2⟩ := walk_factors (callbackOf exec d) c (prepare s d) (prepare s d).startPgno (prepare s d).startSubno
+  obtain ⟨h1, h2⟩ := walk_factors sh (callbackOf exec d) c (prepare sh s d) (prepare sh s d).startPgno (prepare sh s d).startSubno
     (dirOf d) hne hp (dirOf_cases d)
-  rw [walkRun_eq_runPos _ _ _ _ _ _ hok] at h1 h2
+  rw [walkRun_eq_runPos _ _ _ _ _ _ _ hp hok] at h1 h2
   simp only [h1, h2]
 
 /-- an empty cache is reported as such, never as NOT_FOUND or SUCCESS -/
-theorem searchNext_empty (exec : Exec) (c : Cache) (s : SearchSt) (d : Int) (h0 : c.nCached = 0) :
-    (searchNext exec walkFuel c s d).res = .ret SEARCH_CACHE_EMPTY := by
+theorem searchNext_empty (sh : Shape) (exec : Exec) (c : Cache) (s : SearchSt) (d : Int) (h0 : c.nCached = 0) :
+    (searchNext sh exec walkFuel c s d).res = .ret SEARCH_CACHE_EMPTY := by
   unfold searchNext walk
   simp [h0, statusOf]
 
@@ -116,23 +116,23 @@ theorem pageFwd_one {exec : Exec} {s0 : SearchSt} {p : Nat} {e : Entry} {w : Boo
             injection h with _ h
             exact ⟨ms, me, rfl, h.symm⟩
 
-theorem searchNext_success_fwd (exec : Exec) (c : Cache) (s : SearchSt) (d : Int) (hd : d > 0)
-    (hne : c.nCached ≠ 0) (hp : PgOk (prepare s d).startPgno) (hok : StartOk c (prepare s d).startPgno)
-    (h : (searchNext exec walkFuel c s d).res = .ret SEARCH_SUCCESS) :
-    ∃ p sub w e s0 ms me, (p, sub, w) ∈ walkPositions c (prepare s d).startPgno (prepare s d).startSubno 1 ∧
+theorem searchNext_success_fwd (sh : Shape) (exec : Exec) (c : Cache) (s : SearchSt) (d : Int) (hd : d > 0)
+    (hne : c.nCached ≠ 0) (hp : PgOk (prepare sh s d).startPgno) (hok : StartOk sh c (prepare sh s d).startPgno)
+    (h : (searchNext sh exec walkFuel c s d).res = .ret SEARCH_SUCCESS) :
+    ∃ p sub w e s0 ms me, (p, sub, w) ∈ walkPositions sh c (prepare sh s d).startPgno (prepare sh s d).startSubno 1 ∧
       lookupX c p sub = some e ∧ e.func = FUNC_LOP ∧
       exec {} ((hayFwd e.text (cursorRow s0 p.toNat e) s0.col0).1.drop (hayFwd e.text (cursorRow s0 p.toNat e) s0.col0).2)
         = some (ms, me) ∧
-      (searchNext exec walkFuel c s d).st =
+      (searchNext sh exec walkFuel c s d).st =
         highlight { s0 with pgPgno := p.toNat, pgSubno := e.subno, hl := [] } p.toNat e
           (hayFwd e.text (cursorRow s0 p.toNat e) s0.col0).2 ms me := by
-  have hst := searchNext_st exec c s d hne hp hok
-  rw [searchNext_factors exec c s d hne hp hok] at h
+  have hst := searchNext_st sh exec c s d hne hp hok
+  rw [searchNext_factors sh exec c s d hne hp hok] at h
   have hr1 := statusOf_success h
   have hdir : dirOf d = 1 := by unfold dirOf; simp [hd]
   have hcb : callbackOf exec d = pageFwd exec := by unfold callbackOf; simp [hd]
   rw [hdir, hcb] at hr1 hst
-  generalize hrp : runPos (pageFwd exec) c (walkPositions c (prepare s d).startPgno (prepare s d).startSubno 1) (prepare s d) = rp at hr1 hst
+  generalize hrp : runPos (pageFwd exec) c (walkPositions sh c (prepare sh s d).startPgno (prepare sh s d).startSubno 1) (prepare sh s d) = rp at hr1 hst
   obtain ⟨r, s'⟩ := rp
   simp only at hr1 hst
   subst hr1
